@@ -90,6 +90,20 @@ CHECKS.update({
     ),
 })
 
+CHECKS.update({
+    "C05": (
+        "generated programs; oracle = independent numpy model of the recipe (L1) vs interpreter value of the built expression (L2)",
+        "Hypothesis-generated programs over the public operator language (python and ufl literals, zeros with free "
+        "indices, all indexing forms, list/component tensors incl. the operand patterns constructor shortcuts test "
+        "for, conditionals, math functions, tensor algebra, restrictions, real and complex data); the value, shape and "
+        "free indices computed from the recipe by a model that never sees ufl nodes must equal those of the built "
+        "expression; DAG invariants of every node.",
+        "Trusts vf/model.py (textbook semantics) and the interpreter's terminal values; a constructor exception on "
+        "a program the model accepts is reported as a violation.",
+        "4/C05",
+    ),
+})
+
 NOT_YET = {}
 
 
